@@ -13,18 +13,25 @@ import tempfile
 LEVEL = "proof"
 MANIFEST_ENTRY = {
     "category": "proof",
-    "text": "Lean 4 theorems over an executable model of config.py (assoc-list dicts, canonical '-'/'_' names, _assign with undo record, update/merge/refresh, device validation): get-after-set under the same and under the other '-'/'_' spelling (`get_assign_twin`, altKey involution), sibling preservation (frame), with-block exit restores the exact previous configuration for every assignment list, rejected device leaves state untouched, refresh = merge of defaults and idempotent; and over WHOLE HISTORIES of set / with / update_defaults / refresh calls, raising or not (`hstep`/`hrun`, the transition function the driver itself runs): last writer wins (`lww_history`), also when the path is read with every component in its other spelling (`lww_history_twin`, from the `WellKeyed` invariant preserved by every operation), with-blocks are no-ops, the defaults list only grows, refresh after any history = merge of the accumulated defaults. The model is tied to the code on every run by an order-sensitive differential run of random op sequences, and a last-writer-wins reference map is evaluated on the real module as the failing-input search.",
-    "note": "Trusted: Lean kernel + propext/Classical.choice/Quot.sound; the hand model is validated only by sampled correspondence; torch.device parsing and cuda/mps availability are parameters; yaml collection is made empty; keys mixing '-' and '_' are outside the twin-spelling claims.",
-    "technique": "Lean 4 proof (induction over key paths / op lists) + model-vs-implementation correspondence",
+    "text": "Lean 4 theorems over an executable model of config.py (assoc-list dicts, canonical '-'/'_' names, _assign with undo record, update/merge/refresh, collect/collect_yaml/_load_config_file, get with default/override_with, validate_device as (device string, device id) in EVERY device environment): get-after-set under the same and under the other '-'/'_' spelling (`get_assign_twin`), sibling preservation (frame), with-block exit restores the exact previous configuration for every assignment list (also nested inside other open blocks, `xenter_xexit_noop`), refresh = merge of defaults and idempotent, refresh(path) = merge of defaults followed by the user's files (`refreshFrom_spec`, `refreshFrom_missing`); device clause for all CUDA/MPS availabilities, device counts and current devices: whatever is accepted is cpu, or mps with MPS available, or cuda:n with CUDA available and n below the device count (`device_accepted_available`, converse `device_accepted_reachable`), accepted strings are exactly torch's cuda spelling or gpu/mps/cpu ignoring case (`device_string_forms`), a rejected request through set / with / update_defaults raises and leaves configuration AND accumulated defaults unchanged (`rejected_noop`), so rejected requests can be erased from any history (`rejected_history_erase`); and over WHOLE HISTORIES of set / with / update_defaults / refresh calls, raising or not (`hstep`/`hrun`, the transition function the driver itself runs): last writer wins (`lww_history`), also when the path is read with every component in its other spelling (`lww_history_twin`, from the `WellKeyed` invariant preserved by every operation), with-blocks are no-ops, the defaults list only grows, refresh after any history = merge of the accumulated defaults. The model is tied to the code on every run by an order-sensitive differential run of random op sequences (incl. with-blocks with bodies and raising bodies, refresh(path=dir of yaml/json files), set(config=other), falsy get defaults/overrides, degenerate key spellings) in the real and in six simulated device environments (torch availability answers stubbed from the harness process), direct streams for validate_device (tuple), update (all three priorities) and merge, a replay of the import-time initialisation from quantem.yaml, pinned public signatures, and a last-writer-wins reference map evaluated on the real module as the failing-input search.",
+    "note": "Trusted: Lean kernel + propext/Classical.choice/Quot.sound; the hand model is validated only by sampled correspondence; torch.device string parsing is a model parameter (`parseCuda`, compared on a list of spellings; torch's signed-byte wrap of indices >= 128 is outside it); CUDA/MPS environments other than the machine's own are simulated by stubbing torch.cuda/mps.is_available, current_device, set_device and NUM_DEVICES; what update_defaults does to a key it mentions is specified per item (`update_leaf_priority_spec`) but not lifted to a whole-mapping theorem (measured by the reference map); yaml parsing itself and file-system listing are parameters of `collect` (file contents enter the model already parsed); keys mixing '-' and '_' are outside the twin-spelling claims; `__exit__` after a body that replaced a section by a scalar raises from inside its walk and is outside the model (counted as exit-outside-model).",
+    "technique": "Lean 4 proof (induction over key paths / op lists / histories, case analysis of the device dispatch) + model-vs-implementation correspondence",
 }
-RULE = ("random op sequences (set mapping/kwargs, with-set, get, update_defaults, refresh, device requests) over a small "
-        "key alphabet with '-'/'_' twins; a case is one op applied to a state; distinct non-trivial = distinct "
-        "(op kind, outcome, nesting depth, twin-spelling used, state size bucket) with a non-empty state")
-TRUSTED = ["torch.device() string parsing and torch.cuda/mps availability (parameters of validateDevice)",
-           "yaml collection made empty via QUANTEM_CONFIG (hermetic)"]
-ASSUMPTIONS = ["keys with both '-' and '_' are outside the twin-spelling theorems (altKey is not an involution there); they are still exercised by the correspondence"]
-EXPLANATION = ("Theorems in Props/C19.lean are about Model/Config.lean; every run drives the real config module and the model "
-               "with the same op sequences and compares results, error kinds and the full config (order-sensitive).")
+RULE = ("random op sequences (set mapping/kwargs/kwargs-only/None-arg, set_device, with-set, enter/exit with bodies, get with default/override, "
+        "update_defaults, refresh, refresh(path), set(config=other), device requests) over a small key alphabet with '-'/'_' twins, in the real "
+        "and in simulated device environments; a case is one op applied to a state; distinct non-trivial = distinct (op kind, outcome, nesting "
+        "depth, twin-spelling used, state size bucket, device environment, inside an open with-block, default given, override given) with a "
+        "non-empty state, plus (environment, outcome, value type) of the direct validate_device stream and (priority, outcome, defaults kind) of "
+        "the direct update stream")
+TRUSTED = ["torch.device() string parsing (model parameter parseCuda; indices < 128) and the answers of torch.cuda/mps.is_available, "
+           "torch.cuda.current_device, device_count (real on this machine, stubbed in the simulated environments)",
+           "yaml.safe_load / pathlib glob + sorted (file contents and names enter the model as data); default yaml collection made empty via QUANTEM_CONFIG (hermetic)"]
+ASSUMPTIONS = ["keys with both '-' and '_' are outside the twin-spelling theorems (altKey is not an involution there); they are still exercised by the correspondence",
+               "simulated CUDA histories start from the module's own state: check_key_val reads config['has_cupy'] (False on this image) after a CUDA request",
+               "`with` bodies that turn a section on a recorded undo path into a scalar make __exit__ raise inside its walk: outside the model and the restore clause (counted, not compared)",
+               "aliases and deprecations tables are empty (pinned on every run)"]
+EXPLANATION = ("Theorems in Props/C19.lean are about Model/Config.lean, Model/ConfigHistory.lean and Model/ConfigCollect.lean; every run drives the real "
+               "config module and the model with the same op sequences and compares results, error kinds and the full config (order-sensitive).")
 
 TD = "torch.device:"   # sentinel spelling of a torch.device object inside the (JSON) op lists
 SEGS = ["a", "b", "a_b", "a-b", "c_d", "c-d", "k", "viz", "dtype_real", "dtype-real", "mkl", "threads", "m-n_o"]
